@@ -13,6 +13,7 @@ from pbsym import ctx, rig as rigm
 from pbsym.ctx import B
 
 PROPERTY = 'C11'
+TECHNIQUE = 'CrossHair/z3 symbolic execution of read / fetch / replay paths with symbolic leaves and in-place mutations; snapshot oracle'
 FUNCTIONS = ['playback/recordings/memory/memory_recording.py::MemoryRecording.get_data',
              'playback/recordings/memory/memory_recording.py::MemoryRecording.get_data_direct',
              'playback/recording.py::Recording.__getitem__',
